@@ -364,4 +364,67 @@ def didResume (p : Params) (skip : Bool) (c : ConnView K R P S) : Bool :=
   | some s => takesResume p skip s && (match processResumed p s with | .ok () => true | .error _ => false)
   | none => false
 
+/-! ### The pre-master secret of the ECC suites and the client's entropy source
+
+`eccKeyAgreement.generateClientKeyExchange` builds `X := make([]byte, len)`, writes the version
+into `X[0..1]` and fills the tail `X[randFrom:]` from `Config.Rand`, an `io.Reader` the
+application may supply.  A call to `Read` may legally deliver fewer bytes than asked for — one
+byte, half, none at all — with a nil error; only `io.ReadFull` keeps calling until the tail is
+full.  The secrecy of the master secret against a peer that does not hold the encryption private
+key rests on ALL of those bytes coming from the reader: a peer that has to guess one byte
+succeeds by trial against the client's Finished. -/
+
+/-- An `io.Reader` seen from its caller: the bytes it is going to hand out, in order, and for each
+successive call of `Read` how many bytes at most that call delivers (0 = a zero-length read).  When
+the schedule or the bytes run out the reader reports an error. -/
+structure Reader where
+  stream : List Nat
+  sched  : List Nat
+  deriving DecidableEq, Repr
+
+/-- one `Read(p)` with `len(p) = want`: what was delivered and the reader afterwards
+(`none` = error) -/
+def Reader.read (r : Reader) (want : Nat) : Option (List Nat × Reader) :=
+  match r.sched with
+  | [] => none
+  | k :: rest =>
+    let n := min k want
+    if r.stream.length < n then none
+    else some (r.stream.take n, { stream := r.stream.drop n, sched := rest })
+
+/-- `io.ReadFull(r, p)`: `Read` is called until `want` bytes were delivered (not at all when
+`want = 0`); an error of the reader is an error.  Returns the bytes, the rest of the stream and of
+the schedule. -/
+def readFull : (sched stream : List Nat) → (want : Nat) → Option (List Nat × List Nat × List Nat)
+  | sched, stream, 0 => some ([], stream, sched)
+  | [], _, _ + 1 => none
+  | k :: rest, stream, want + 1 =>
+    let n := min k (want + 1)
+    if stream.length < n then none
+    else match readFull rest (stream.drop n) (want + 1 - n) with
+      | none => none
+      | some (bs, s', sc') => some (stream.take n ++ bs, s', sc')
+
+/-- shape of the source (fed from `Gotlcp.Facts`) -/
+structure PmsParams where
+  len      : Nat   -- `make([]byte, len)`
+  randFrom : Nat   -- the tail `X[randFrom:]` is filled from `config.rand()` …
+  readFull : Bool  -- … with `io.ReadFull` (otherwise: ONE call of `Read`, its count ignored)
+  deriving DecidableEq, Repr
+
+/-- the random tail of the pre-master secret and how many of its bytes were drawn from the reader -/
+def pmsTail (p : PmsParams) (r : Reader) : Option (List Nat × Nat) :=
+  let want := p.len - p.randFrom
+  if p.readFull then
+    (readFull r.sched r.stream want).map fun (bs, _, _) => (bs, bs.length)
+  else
+    (r.read want).map fun (bs, _) => (bs ++ List.replicate (want - bs.length) 0, bs.length)
+
+/-- the pre-master secret the client encrypts: version ‖ tail (`none`: the client fails) -/
+def preMaster (p : PmsParams) (vers : Nat) (r : Reader) : Option (List Nat) :=
+  (pmsTail p r).map fun (t, _) => ([vers / 256, vers % 256] ++ List.replicate (p.randFrom - 2) 0).take p.randFrom ++ t
+
+/-- how many bytes of the tail come from the reader -/
+def pmsDrawn (p : PmsParams) (r : Reader) : Option Nat := (pmsTail p r).map (·.2)
+
 end Gotlcp.Model.ClientAuthn
